@@ -18,7 +18,10 @@ CONSTANTS Configs,     \* set of [files, proto, upload, confirm]: one is chosen 
           Window,      \* max DATA messages sent but not yet acknowledged (pipelined mode)
           MaxFaults,   \* number of channel faults the environment may inject
           FaultKinds,  \* subset of {"del", "dup", "dmg", "trunc"}
-          StopRoles    \* roles on which the user may press stop
+          StopRoles,   \* roles on which the user may press stop
+          MaxPauses,   \* number of pause/continue cycles the user may start on the client (protocol >= 3)
+          TimeoutTicks,\* read time-out in clock ticks
+          MaxTicks     \* bound on the clock while paused
 
 VARIABLE cf            \* the configuration of this transfer
 Files == cf.files
@@ -57,13 +60,18 @@ VARIABLES
     fileOK,    \* [Roles -> SUBSET 1..NF] files the role considers transferred and verified
     stopped,   \* [Roles -> {"no", "keep", "del"}] stop requested (and its kind) and not yet noticed
     faults,    \* faults injected so far
-    told       \* [Roles -> BOOLEAN] role has written a fail line (observable)
+    told,      \* [Roles -> BOOLEAN] role has written a fail line (observable)
+    paused,    \* the client is paused (stop/continue question shown)
+    npause,    \* pauses started so far
+    quiet,     \* ticks the server has been waiting without receiving anything while the client is paused
+    maxquiet   \* the largest value quiet has reached (history, for ShortPauseCompletes)
 
 vars == <<cf, chan, dead, pc, fi, rem, outst, sdig, got, ackq, fin, rsize, dst, made, rdig, result, fileOK,
-          stopped, faults, told>>
+          stopped, faults, told, paused, npause, quiet, maxquiet>>
 
 Stp(r) == stopped[r] # "no"
 WasStopped(r) == result[r] \in {"stopped", "stoppeddel"}
+PauseOK(r) == ~(paused /\ r = "C" /\ cf.proto >= 3)     \* checkStopAndPause / recvCheckV2 wait while pausing
 Send(r, m) == IF dead[r] THEN chan ELSE [chan EXCEPT ![r] = Append(@, m)]   \* deliver to r
 HasMsg(r) == chan[r] # <<>>
 HeadMsg(r) == chan[r][1]
@@ -79,6 +87,7 @@ Init ==
     /\ dst = [f \in 1..NF |-> Empty] /\ made = {} /\ rdig = Empty
     /\ result = [r \in Roles |-> "run"] /\ fileOK = [r \in Roles |-> {}]
     /\ stopped = [r \in Roles |-> "no"] /\ faults = 0 /\ told = [r \in Roles |-> FALSE]
+    /\ paused = FALSE /\ npause = 0 /\ quiet = 0 /\ maxquiet = 0
 
 -----------------------------------------------------------------------------
 (* Error path: clientError / serverError.  The role drains its input (cleanInput), then      *)
@@ -115,6 +124,7 @@ Expect(r) ==
       [] pc[r] = "r_comp" -> "COMP" [] pc[r] \in {"r_data1", "r_data"} -> "DATA" [] pc[r] = "r_md5" -> "MD5"
       [] OTHER -> "none"
 
+PauseVars == <<paused, npause, quiet, maxquiet>>
 UnchangedData == UNCHANGED <<made, cf, rem, outst, sdig, got, ackq, fin, rsize, dst, rdig, fileOK, faults, dead, fi>>
 
 (* deleteCreatedFiles: everything this transfer created at the destination is removed *)
@@ -141,7 +151,7 @@ LocalWork(p) ==       \* the role can do something that does not need a message
     \/ (pc[p] = "s_data" /\ (Proto < 2 \/ Len(outst) < Window))
     \/ (pc[p] = "r_data" /\ (got.len > 0 \/ ackq # <<>> \/ fin))
     \/ (pc[p] = "r_data1" /\ dst[fi[p]].len >= rsize)
-CanProgress(p) == Running(p) /\ (Stp(p) \/ HasMsg(p) \/ LocalWork(p))
+CanProgress(p) == Running(p) /\ (Stp(p) \/ HasMsg(p) \/ LocalWork(p) \/ (paused /\ p = "C"))
 Timeout(r) ==
     /\ Receiving(r) /\ ~CanProgress(r) /\ ~CanProgress(Peer(r))
     /\ Fail(r, "fail", FALSE)
@@ -255,7 +265,7 @@ SRecvAck1 ==
 (* unit an empty DATA is the finish flag.  pc s_data = still sending, s_acks = everything     *)
 (* sent and acks outstanding, s_final = waiting for SUCC(step = size).                        *)
 SSendData2(a, c) ==
-    /\ Proto >= 2 /\ Running(S) /\ pc[S] = "s_data" /\ ~Stp(S)
+    /\ Proto >= 2 /\ Running(S) /\ pc[S] = "s_data" /\ ~Stp(S) /\ PauseOK(S)
     /\ Len(outst) < Window /\ a >= 1 /\ c \in 0..rem
     /\ chan' = Send(R, Msg("DATA", a, c, TRUE))
     /\ rem' = rem - c /\ outst' = Append(outst, a) /\ sdig' = Plus(sdig, c, TRUE)
@@ -263,7 +273,7 @@ SSendData2(a, c) ==
     /\ UNCHANGED <<made, got, ackq, fin, rsize, dst, rdig, fileOK, faults, dead, fi>>
 
 SSendFinish ==
-    /\ Proto >= 2 /\ Running(S) /\ pc[S] = "s_data" /\ ~Stp(S)
+    /\ Proto >= 2 /\ Running(S) /\ pc[S] = "s_data" /\ ~Stp(S) /\ PauseOK(S)
     /\ Len(outst) < Window /\ rem = 0
     /\ chan' = Send(R, Msg("DATA", 0, 0, TRUE)) /\ outst' = Append(outst, 0)
     /\ Go(S, "s_acks") /\ Keep(S)
@@ -271,8 +281,8 @@ SSendFinish ==
 
 (* pipelineRecvAck: SUCC(len/step) must echo the length of the oldest unacknowledged DATA    *)
 SRecvAck2 ==
-    /\ Proto >= 2 /\ Running(S) /\ pc[S] \in {"s_data", "s_acks"} /\ ~Stp(S) /\ outst # <<>>
-    /\ RecvOK(S, "SUCC")
+    /\ Proto >= 2 /\ Running(S) /\ pc[S] \in {"s_data", "s_acks"} /\ ~Stp(S) /\ outst # <<>> /\ PauseOK(S)
+    /\ RecvOK(S, "SUCC") /\ HeadMsg(S).a # -2
     /\ IF HeadMsg(S).a # outst[1] \/ HeadMsg(S).b < 0 THEN Fail(S, "fail", FALSE) /\ UnchangedData
        ELSE /\ chan' = Pop(chan, S) /\ outst' = Tail(outst) /\ Keep(S)
             /\ Go(S, IF pc[S] = "s_acks" /\ Len(outst) = 1 THEN "s_final" ELSE pc[S])
@@ -280,7 +290,7 @@ SRecvAck2 ==
 
 (* pipelineRecvFinalAck: SUCC(step) until step = size; step > size is an error                *)
 SRecvFinal ==
-    /\ Running(S) /\ pc[S] = "s_final" /\ ~Stp(S) /\ RecvOK(S, "SUCC")
+    /\ Running(S) /\ pc[S] = "s_final" /\ ~Stp(S) /\ PauseOK(S) /\ RecvOK(S, "SUCC") /\ HeadMsg(S).a # -2
     /\ LET sz == Files[fi[S]].size  st == HeadMsg(S).b IN
        IF st > sz \/ HeadMsg(S).a # -1 THEN Fail(S, "fail", FALSE) /\ UnchangedData
        ELSE /\ chan' = Pop(chan, S) /\ Keep(S)
@@ -360,7 +370,7 @@ RRecvData1 ==
 (* protocol >= 2: pipelineRecvData takes DATA messages (an empty one is the finish flag);    *)
 (* got = units received but not yet decoded and written                                       *)
 RRecvData2 ==
-    /\ Running(R) /\ pc[R] = "r_data" /\ ~Stp(R) /\ ~fin /\ RecvOK(R, "DATA")
+    /\ Running(R) /\ pc[R] = "r_data" /\ ~Stp(R) /\ ~fin /\ PauseOK(R) /\ RecvOK(R, "DATA") /\ HeadMsg(R).a # -2
     /\ LET m == HeadMsg(R) IN
        /\ chan' = Pop(chan, R)
        /\ got' = Plus(got, m.b, m.ok) /\ ackq' = Append(ackq, m.a)
@@ -379,7 +389,7 @@ RSave(n) ==
 
 (* pipelineSendAck, first loop: SUCC(len/savedSteps) for each received DATA in order          *)
 RSendAck ==
-    /\ Running(R) /\ pc[R] = "r_data" /\ ~Stp(R) /\ ackq # <<>>
+    /\ Running(R) /\ pc[R] = "r_data" /\ ~Stp(R) /\ ackq # <<>> /\ PauseOK(R)
     /\ chan' = Send(S, Msg("SUCC", ackq[1], Saved, TRUE))
     /\ ackq' = Tail(ackq)
     /\ UNCHANGED pc /\ Keep(R)
@@ -389,7 +399,7 @@ RSendAck ==
 (* the announced size; saved > size, or everything decoded and saved # size, is an error     *)
 (* ("SaveFile expected step ...").  The model sends it once everything received is written.  *)
 RSendFinal ==
-    /\ Running(R) /\ pc[R] = "r_data" /\ ~Stp(R) /\ fin /\ ackq = <<>> /\ got.len = 0
+    /\ Running(R) /\ pc[R] = "r_data" /\ ~Stp(R) /\ fin /\ ackq = <<>> /\ got.len = 0 /\ PauseOK(R)
     /\ IF Saved # rsize
        THEN Fail(R, "fail", FALSE) /\ UnchangedData
        ELSE /\ chan' = Send(S, Msg("SUCC", -1, Saved, TRUE))
@@ -399,7 +409,7 @@ RSendFinal ==
 (* an intermediate final ack (step < size) while data is still being written: tolerated by   *)
 (* the sender; used by the trace spec, not part of Next (it would only add stuttering acks)  *)
 RSendFinalEarly ==
-    /\ Running(R) /\ pc[R] = "r_data" /\ ~Stp(R) /\ fin /\ ackq = <<>> /\ Saved < rsize
+    /\ Running(R) /\ pc[R] = "r_data" /\ ~Stp(R) /\ fin /\ ackq = <<>> /\ Saved < rsize /\ PauseOK(R)
     /\ chan' = Send(S, Msg("SUCC", -1, Saved, TRUE))
     /\ UNCHANGED pc /\ Keep(R) /\ UnchangedData
 
@@ -467,9 +477,53 @@ RoleStep ==
     \/ CExit \/ VExit
     \/ \E r \in Roles : BadMessage(r) \/ NoticeStop(r) \/ Timeout(r) \/ Drain(r)
 
-Next == RoleStep \/ (\E r \in Roles : Fault(r) \/ \E k \in {"keep", "del"} : UserStop(r, k))
+(* ---- pause / continue on the client (protocol >= 3): keep-alive lines, the peer's read timer ---- *)
+KeepPoint ==      \* the paused client is at a point where checkStopAndPause writes keep-alive lines
+    \/ (S = "C" /\ pc["C"] = "s_data" /\ Len(outst) < Window)
+    \/ (R = "C" /\ pc["C"] = "r_data" /\ (ackq # <<>> \/ fin))
+V2Read(r) ==      \* the role reads with recvCheckV2, which skips keep-alive lines
+    \/ (r = R /\ pc[r] = "r_data" /\ ~fin)
+    \/ (r = S /\ pc[r] \in {"s_data", "s_acks", "s_final"})
 
-Spec == Init /\ [][Next]_vars /\ WF_vars(RoleStep)
+UserPause ==
+    /\ Proto >= 3 /\ Running("C") /\ ~paused /\ npause < MaxPauses /\ pc["C"] \notin {"c_act", "c_cfg"}
+    /\ paused' = TRUE /\ npause' = npause + 1 /\ quiet' = 0 /\ UNCHANGED maxquiet
+    /\ UNCHANGED <<chan, pc, result, told, stopped>> /\ UnchangedData
+
+UserResume ==
+    /\ paused /\ paused' = FALSE /\ quiet' = 0 /\ UNCHANGED <<npause, maxquiet>>
+    /\ UNCHANGED <<chan, pc, result, told, stopped>> /\ UnchangedData
+
+KeepAlive ==      \* "#DATA:=" / "#SUCC:=" every 100 ms while pausing
+    /\ paused /\ Running("C") /\ KeepPoint /\ ~Stp("C")
+    /\ \A i \in 1..Len(chan["V"]) : chan["V"][i].a # -2        \* (one in flight is enough for the model)
+    /\ chan' = Send("V", Msg(IF S = "C" THEN "DATA" ELSE "SUCC", -2, 0, TRUE))
+    /\ UNCHANGED <<pc, result, told, stopped>> /\ UnchangedData /\ UNCHANGED PauseVars
+
+SkipKeep(r) ==    \* recvCheckV2: "client pausing, read again" (fresh time-out)
+    /\ Running(r) /\ HasMsg(r) /\ HeadMsg(r).a = -2 /\ V2Read(r) /\ PauseOK(r)
+    /\ chan' = Pop(chan, r) /\ quiet' = 0
+    /\ UNCHANGED <<pc, result, told, stopped, paused, npause, maxquiet>> /\ UnchangedData
+
+ServerIdle == ~CanProgress("V") \/ ~Running("V")
+Tick ==           \* time passes while the client is paused and the server can only wait
+    /\ paused /\ Running("V") /\ Receiving("V") /\ ~HasMsg("V") /\ ~CanProgress("V") /\ quiet < MaxTicks
+    /\ \A i \in 1..Len(chan["V"]) : TRUE
+    /\ ~(Running("C") /\ KeepPoint /\ ~Stp("C"))                 \* keep-alives would arrive first
+    /\ quiet' = quiet + 1 /\ maxquiet' = IF quiet + 1 > maxquiet THEN quiet + 1 ELSE maxquiet
+    /\ UNCHANGED <<paused, npause, chan, pc, result, told, stopped>> /\ UnchangedData
+
+TimeoutQ ==       \* the server's read timer expires during a long pause
+    /\ paused /\ Receiving("V") /\ ~HasMsg("V") /\ quiet >= TimeoutTicks
+    /\ Fail("V", "fail", FALSE) /\ UnchangedData /\ UNCHANGED PauseVars
+
+PauseStep == KeepAlive \/ (\E r \in Roles : SkipKeep(r)) \/ TimeoutQ
+Step == (RoleStep /\ quiet' = 0 /\ UNCHANGED <<paused, npause, maxquiet>>) \/ PauseStep
+Env == \/ \E r \in Roles : (Fault(r) \/ \E k \in {"keep", "del"} : UserStop(r, k)) /\ UNCHANGED PauseVars
+       \/ UserPause \/ Tick
+Next == Step \/ Env \/ UserResume
+
+Spec == Init /\ [][Next]_vars /\ WF_vars(Step) /\ WF_vars(UserResume)
 
 -----------------------------------------------------------------------------
 (* Properties.  The observable ones (over result, fileOK, dst, told, faults, stopped) are     *)
@@ -497,13 +551,22 @@ AckWithinSaved ==
 
 (* C01 (second half): without faults, stops and refusal both sides succeed                    *)
 CleanRunSucceeds ==
-    (Finished /\ faults = 0 /\ Confirm /\ \A r \in Roles : ~WasStopped(r))
+    (Finished /\ faults = 0 /\ Confirm /\ npause = 0 /\ \A r \in Roles : ~WasStopped(r))
         => \A r \in Roles : result[r] = "ok"
 
 (* C10: once a stop-and-delete has been noticed and everybody is finished, nothing this       *)
 (* transfer created is left -- unless the receiving side had already completed successfully   *)
 DeleteExact ==
     (Finished /\ result[Rcv] # "ok" /\ (\E r \in Roles : result[r] = "stoppeddel")) => made = {}
+
+(* C18: a pause during which the peer never waited a full time-out does not break the transfer *)
+ShortPauseCompletes ==
+    (Finished /\ faults = 0 /\ Confirm /\ maxquiet < TimeoutTicks /\ \A r \in Roles : ~WasStopped(r))
+        => \A r \in Roles : result[r] = "ok"
+(* C18: while paused the client writes no file data (keep-alive lines take its place) *)
+NoDataWhilePaused ==
+    [][(paused /\ paused' /\ S = "C" /\ Proto >= 3) =>
+         \A i \in 1..Len(chan'["V"]) : i > Len(chan["V"]) => ~(chan'["V"][i].t = "DATA" /\ chan'["V"][i].a >= 0)]_vars
 
 (* C11: every behaviour ends with both roles finished (no hang)                               *)
 Termination == <>[]Finished
